@@ -122,7 +122,10 @@ def create_gaussian_scalarizing_designer(
         f'scalarization ensembling {objectives}'
     )
 
-  key = jax_random.PRNGKey(seed or random.getrandbits(32))
+  # `seed or ...` would discard the valid seed 0.
+  key = jax_random.PRNGKey(
+      seed if seed is not None else random.getrandbits(32)
+  )
   weights = abs(
       jax_random.normal(key=key, shape=(num_ensemble, len(objectives)))
   )
